@@ -20,6 +20,7 @@ PROPS = {
  "C08": P("C08", ["Properties_C08.v"], 150, 1500, ["G_st_apply", "G_st_applyAdjoint", "G_crossm"]),
  "C09": P("C09", ["Properties_C09.v"], 150, 1500, ["G_st_apply", "G_crossm", "G_st_mul"]),
  "C10": P("C10", ["Properties_C10.v"], 150, 1500, ["G_st_apply"]),
+ "C11": P("C11", ["Properties_C11.v"], 150, 1500, ["G_st_apply", "G_st_applyAdjoint", "G_crossm"]),
  "C12": P("C12", ["Properties_C12.v"], 120, 1200, ["G_st_applyTranspose", "G_st_applyTranspose_rbi", "G_st_applyAdjoint", "G_rbi_mulv", "G_rbi_add", "G_crossf", "G_Xtrans", "G_st_inverse"]),
  "C13": P("C13", ["Properties_C13.v"], 120, 1200, []),
  "C14": P("C14", ["Properties_C14.v"], 200, 3000, ["G_rbi_createFromMassComInertiaC", "G_st_mul"], unchanged_on_reject=True),
